@@ -210,6 +210,21 @@ private theorem pdu_crc (fd : FileDirective) (P : Bytes) :
   · intro h
     simp [Spec.pdu, withCrc, h]
 
+/-- every strict prefix of a laid-out directive PDU is refused with `ValueError` by any decoder of
+    the form "prelude, then parameter parser" -/
+private theorem pdu_truncated {α : Type} (f : FileDirective × Bytes → Py α) (fd : FileDirective)
+    (code dir : Nat) (P : Bytes) (wf : WFBase fd code dir P.length) (k : Nat)
+    (hk : k < (Spec.pdu fd P).length) : (prelude ((Spec.pdu fd P).take k) >>= f) = .error .value := by
+  have hl := (pdu_len fd code dir P wf).1
+  have : ∃ R, Spec.pdu fd P = specOctets fd ++ R := by
+    rw [spec_pdu_eq]; unfold withCrc
+    split
+    · exact ⟨P ++ Crc.crcTrailer (specOctets fd ++ P), by simp⟩
+    · exact ⟨P, rfl⟩
+  obtain ⟨R, hR⟩ := this
+  rw [hR] at hl hk ⊢
+  exact bind_prelude_truncated f fd wf.1 R hl k (by omega)
+
 /-! ## ACK (`C06_ack_*`) -/
 
 /-- valid ACK PDUs: the acknowledged directive is EOF (4, subtype 0, towards the sender) or Finished
@@ -353,6 +368,13 @@ theorem C06_ack_accept_sound (d : Bytes) (a : Ack) (h : Ack.unpack d = .ok a) (r
   obtain ⟨_, _, _, h4, h5⟩ := Ack.unpack_inv d a h
   exact ⟨h4, h5, Ack.unpack_take d a h rest⟩
 
+
+/-- **every strict prefix of a packed PDU is refused with `ValueError`** -/
+theorem C06_ack_truncated (x : Ack) (wf : WFAck x) (k : Nat) (hk : k < (Spec.ack x).length) :
+    Ack.unpack ((Spec.ack x).take k) = .error .value := by
+  rw [Ack.unpack_eq]
+  exact pdu_truncated _ x.fd _ _ _ wf.2.2.2.2.2 k hk
+
 -- non-vacuity: ACK of a Finished PDU, FILE_CHECKSUM_FAILURE, TERMINATED, CRC, large file, 2-octet IDs
 private def exAck : Ack :=
   ⟨⟨⟨0, 0, 5, ⟨⟨2, 0x0102⟩, ⟨2, 0x0304⟩, ⟨1, 0x77⟩, 1, 1, 1, 0, 0⟩⟩, 6⟩, 5, 1, 5, 2⟩
@@ -447,6 +469,13 @@ theorem C06_prompt_accept_sound (d : Bytes) (p : Prompt) (h : Prompt.unpack d = 
     Prompt.unpack (d.take p.packetLen ++ rest) = .ok p := by
   obtain ⟨_, _, _, h4, h5⟩ := Prompt.unpack_inv d p h
   exact ⟨h4, h5, Prompt.unpack_take d p h rest⟩
+
+
+/-- **every strict prefix of a packed PDU is refused with `ValueError`** -/
+theorem C06_prompt_truncated (x : Prompt) (wf : WFPrompt x) (k : Nat) (hk : k < (Spec.prompt x).length) :
+    Prompt.unpack ((Spec.prompt x).take k) = .error .value := by
+  rw [Prompt.unpack_eq]
+  exact pdu_truncated _ x.fd _ _ _ wf.2 k hk
 
 -- non-vacuity: Keep Alive response requested, CRC, 8-octet IDs, 4-octet sequence number
 private def exPrompt : Prompt :=
@@ -602,6 +631,13 @@ theorem C06_keepalive_accept_sound (d : Bytes) (k : KeepAlive) (h : KeepAlive.un
     KeepAlive.unpack (d.take k.packetLen ++ rest) = .ok k := by
   obtain ⟨_, _, _, h4, h5⟩ := KeepAlive.unpack_inv d k h
   exact ⟨h4, h5, KeepAlive.unpack_take d k h rest⟩
+
+
+/-- **every strict prefix of a packed PDU is refused with `ValueError`** -/
+theorem C06_keepalive_truncated (x : KeepAlive) (wf : WFKeepAlive x) (k : Nat) (hk : k < (Spec.keepAlive x).length) :
+    KeepAlive.unpack ((Spec.keepAlive x).take k) = .error .value := by
+  rw [KeepAlive.unpack_eq]
+  exact pdu_truncated _ x.fd _ _ _ (by simpa [Spec.keepAliveParams] using wf.2.2) k hk
 
 -- non-vacuity: 64-bit progress with every octet different (a byte-order error would show), CRC
 private def exKa : KeepAlive :=
@@ -917,6 +953,13 @@ theorem C06_nak_accept_sound (d : Bytes) (k : Nak) (h : Nak.unpack d = .ok k) :
     SegsFit (fssWidth k.fd.header.conf.fileFlag) k.segs := by
   obtain ⟨_, _, h3, h4, h5, h6, h7⟩ := Nak.unpack_inv d k h
   exact ⟨h3, h4, h5, h6, h7⟩
+
+
+/-- **every strict prefix of a packed PDU is refused with `ValueError`** -/
+theorem C06_nak_truncated (x : Nak) (wf : WFNak x) (k : Nat) (hk : k < (Spec.nak x).length) :
+    Nak.unpack ((Spec.nak x).take k) = .error .value := by
+  rw [Nak.unpack_eq]
+  exact pdu_truncated _ x.fd _ _ _ (by rw [nakParams_length x]; exact wf.2.2.2) k hk
 
 -- non-vacuity: two segment requests, 64-bit offsets with every octet different, CRC, 2-octet IDs
 private def exNak : Nak :=
